@@ -272,7 +272,7 @@ class C07(PropBase):
                 "CfiStackWalker::from_ctx_and_args whose field expressions are translated from the source (c07_walker_args: has a grand-callee = "
                 "is not the context frame, parameter size = the grand-callee's when known else 0); the FPO leftover-return-address skip can only "
                 "touch the context frame (c07_fpo_no_skip_above_context); every well-formed all-FPO x86 stack of ANY depth — functions with or "
-                "without FUNC records, direct recursion from one call site — is walked to exactly its generated chain (c07_fpo_recovers_chain, "
+                "without FUNC records, direct recursion from one call site — is walked to exactly its generated chain (c07_fpo_recovers_chain, c07_fpo_recovers_chain_bp for both allocates_base_pointer kinds, "
                 "c07_fpo_recursion_chain; induction on the activations); the byte-level text route (C09 grammar -> finish -> tables) equals the "
                 "record route the theorems are about (c07_text_tables_agree, c07_text_route_agrees_parsed: walk_frame_text = walk_frame on the parsed "
                 "records for every file without STACK CFI records; the normal form of parsed strings is a proved parser invariant). "
@@ -280,8 +280,8 @@ class C07(PropBase):
                 "through x86 walk_stack from a context frame and from frame lists, debug and release; an independent Python reference judges "
                 "every implementation answer.",
         "note": "Trusted: Coq kernel; hand-written model (correspondence-checked); translator for the from_ctx_and_args field expressions; extraction + glue. "
-                "c07_fpo_recovers_chain is about FPO records with allocates_base_pointer = false on the abstract 32-bit walker (frame-data programs and "
-                "abp = true in whole walks are covered by the run: C04's STACK WIN stacks). Known finding F-C07a (implicit forwarding of "
+                "c07_fpo_recovers_chain(_bp) are about whole walks through FPO records (both allocates_base_pointer kinds) on the abstract 32-bit walker (frame-data programs and "
+                "mixes with STACK CFI in whole walks are covered by the run: C04's STACK WIN stacks). Known finding F-C07a (implicit forwarding of "
                 "ebp/ebx/esi/edi through STACK WIN frames) is pinned by minidump-stackwalk snapshots and reported as KNOWN-FINDING. No axioms.",
     }
     assumptions = ["bare (non-$, non-.) names are rejected by the evaluator although the STACK WIN docs list `<alphanumeric>` among the values (documentation matter, see design/C07.md); treated as undocumented by the oracle",
